@@ -548,6 +548,15 @@ func (s *session) rejectClass(of *offer, out outcome) {
 		}
 	case "batch":
 		r.Note("reject_classes", "batch:not-listed")
+		// doc/protocol/blob-upload.md makes errorText optional ("mostly for debugging clients"): the
+		// rejection of a part is its absence from "received"; the text is recorded, not demanded
+		if out.status == 0 && out.terr == nil {
+			if out.text != "" {
+				r.Note("reject_classes", "batch:not-listed+errorText")
+			} else {
+				r.Note("reject_classes", "batch:not-listed-without-errorText")
+			}
+		}
 	}
 }
 
